@@ -38,6 +38,7 @@ impl OutFile {
 #[verifier::external_body]
 pub struct LevelFile { _p: u8 }
 impl HasBytes for LevelFile { uninterp spec fn bytes(&self) -> Seq<u8>; }
+impl LevelFile { pub uninterp spec fn cid(&self) -> int; }
 
 /// tokio JoinHandle<Result<(usize, usize), ProcessDataError>> of one chromosome's `write_data` task for one level
 #[verifier::external_body]
@@ -119,18 +120,42 @@ impl<M> Mailbox<M> {
     #[verifier::external_body]
     pub fn try_next(&mut self) -> Option<M> { unimplemented!() }
 }
-/// futures mpsc Sender<M>: appends to a log in call order (ASSUMED).  `try_send(..).unwrap()`: the real call fails
-/// (and the code panics) when the channel is full or the level task is gone -- not modelled.
+/// futures mpsc bounded channel.  ASSUMED futures contract: `channel(buffer)` creates a channel that accepts AT LEAST
+/// `buffer` messages without any receiver poll (the real capacity is `buffer + number of senders`); `try_send` appends
+/// to the queue and returns Ok whenever fewer than that many messages were ever sent (worst case: NOTHING has been
+/// drained -- `sent()` counts every message ever sent; a draining receiver only helps), otherwise it may return
+/// Err(Full).  `capacity()` = the `buffer` argument, `cid()` = which channel.  `.unwrap()` on the result is an OBLIGATION.
 #[verifier::external_body]
 #[verifier::reject_recursive_types(M)]
 pub struct ZSender<M> { _p: core::marker::PhantomData<M> }
-pub struct SendRes {}
-impl SendRes { pub fn unwrap(self) {} pub fn expect(self, _m: &str) {} }
+pub struct SendRes { pub ok: bool }
+impl SendRes {
+    pub fn unwrap(self)
+        requires
+            
+            self.ok,
+    {}
+    pub fn is_ok(&self) -> (r: bool) ensures r == self.ok { self.ok }
+}
 impl<M> ZSender<M> {
     pub uninterp spec fn sent(&self) -> Seq<M>;
+    pub uninterp spec fn capacity(&self) -> int;
+    pub uninterp spec fn cid(&self) -> int;
     #[verifier::external_body]
-    pub fn try_send(&mut self, m: M) -> (r: SendRes) ensures final(self).sent() == old(self).sent().push(m) { unimplemented!() }
+    pub fn try_send(&mut self, m: M) -> (r: SendRes)
+        ensures
+            final(self).capacity() == old(self).capacity(), final(self).cid() == old(self).cid(),
+            old(self).sent().len() < old(self).capacity() ==> r.ok,
+            r.ok ==> final(self).sent() == old(self).sent().push(m),
+            !r.ok ==> final(self).sent() == old(self).sent(),
+    { unimplemented!() }
 }
+impl<M> Mailbox<M> { pub uninterp spec fn cid(&self) -> int; }
+/// futures_mpsc::channel(buffer)
+#[verifier::external_body]
+pub fn channel<M>(buffer: usize) -> (r: (ZSender<M>, Mailbox<M>))
+    ensures r.0.capacity() == buffer as int, r.0.sent().len() == 0, r.0.cid() == r.1.cid(),
+{ unimplemented!() }
 /// `X.unwrap()` / `X.expect(..)` on the Options the code unwraps: verified helpers with a labelled precondition
 fn level_present<T>(o: Option<T>) -> (r: T)
     requires
@@ -328,6 +353,11 @@ impl SMap {
             r.is_some() ==> *r.unwrap() == old(self)@[*k] && final(self)@ == old(self)@.insert(*k, *final(r.unwrap())),
             r.is_none() ==> final(self)@ == old(self)@,
     { unimplemented!() }
+    /// BTreeMap::new / insert (ASSUMED): empty; insert stores v under k (replacing an earlier entry)
+    #[verifier::external_body]
+    pub fn new() -> (r: SMap) ensures r@ == Map::<u32, ZSender<ZMsg>>::empty() { unimplemented!() }
+    #[verifier::external_body]
+    pub fn insert(&mut self, k: u32, v: ZSender<ZMsg>) -> (r: Option<ZSender<ZMsg>>) ensures final(self)@ == old(self)@.insert(k, v) { unimplemented!() }
     #[verifier::external_body]
     pub fn first_key_value(&self) -> Option<(&u32, &ZSender<ZMsg>)> { unimplemented!() }
     #[verifier::external_body]
@@ -370,7 +400,12 @@ fn advance_zoom_vals(p: ProcZ, zooms_map: &mut SMap)
     requires
         
         infos_pre(p.out().0@, old(zooms_map)@.dom()),
+        
+        forall|x: u32| old(zooms_map)@.dom().contains(x) ==> (#[trigger] old(zooms_map)@[x]).sent().len() < old(zooms_map)@[x].capacity(),
     ensures
+        
+        forall|x: u32| old(zooms_map)@.dom().contains(x) ==> (#[trigger] final(zooms_map)@[x]).capacity() == old(zooms_map)@[x].capacity()
+            && final(zooms_map)@[x].cid() == old(zooms_map)@[x].cid(),
         
         final(zooms_map)@.dom() == old(zooms_map)@.dom(),
         
@@ -393,6 +428,7 @@ fn advance_zoom_vals(p: ProcZ, zooms_map: &mut SMap)
                 zooms_map@.dom() == dom,
                 forall|x: u32| dom.contains(x) ==> (#[trigger] zooms_map@[x]).sent()
                     == (if zidx(zs, x) < jj { zm0[x].sent().push(msg_of(zs[zidx(zs, x)])) } else { zm0[x].sent() }),
+                forall|x: u32| dom.contains(x) ==> (#[trigger] zooms_map@[x]).capacity() == zm0[x].capacity() && zooms_map@[x].cid() == zm0[x].cid(),
             decreases
                 
                 src__@.len(),
@@ -423,6 +459,10 @@ fn advance_zoom_vals(p: ProcZ, zooms_map: &mut SMap)
                         assert(zooms_map@[x] == zmb[x]);
                         assert(zidx(zs, x) != jj);
                     }
+                }
+                
+                assert forall|x: u32| dom.contains(x) implies (#[trigger] zooms_map@[x]).capacity() == zm0[x].capacity() && zooms_map@[x].cid() == zm0[x].cid() by {
+                    if x != zs[jj].resolution { assert(zooms_map@[x] == zmb[x]); }
                 }
                 jj = jj + 1;
             }
@@ -685,6 +725,181 @@ fn zoom_tail(zooms: Vec<LevelHandle>, zoom_files: Vec<(u32, StageBuf<OutFile>)>,
 }
 
     Ok((file, zoom_entries, max_uncompressed_buf_size))
+}
+
+// =====================================================================================
+// (d) construction of the levels, spawning of the level tasks, and the hand-off capacity
+// =====================================================================================
+/// HashMap<String, u32> (chrom name -> id, result of the first pass): only its size is read here
+#[verifier::external_body]
+pub struct StrMap { _p: u8 }
+impl StrMap {
+    pub uninterp spec fn count(&self) -> nat;
+    #[verifier::external_body]
+    pub fn len(&self) -> (r: usize) ensures r as nat == self.count() { unimplemented!() }
+}
+/// TempFileBuffer::new(inmemory) (tfb `fresh_pair`, ASSUMED): consumer and producer half of ONE fresh staging file
+#[verifier::external_body]
+pub fn level_staging_new(inmemory: bool) -> (r: (StageBuf<OutFile>, LevelFile))
+    ensures r.0.dest() is None, r.0.cid() == r.1.cid(),
+{ unimplemented!() }
+pub open spec fn strictly_increasing(s: Seq<u32>) -> bool { forall|i: int, j: int| 0 <= i < j < s.len() ==> s[i] < s[j] }
+/// level k: receiver triple, staging file and sender all keyed by zooms[k]; the triple's writer and the staging
+/// file are the two halves of one file; the triple's receiver and the map's sender are the two ends of one channel
+/// whose capacity is `cap` and that is still empty
+pub open spec fn level_built(rc: (u32, Mailbox<ZMsg>, LevelFile), f: (u32, StageBuf<OutFile>), m: Map<u32, ZSender<ZMsg>>, size: u32, cap: int) -> bool {
+    &&& rc.0 == size && f.0 == size && m.dom().contains(size)
+    &&& f.1.cid() == rc.2.cid() && f.1.dest() is None
+    &&& m[size].cid() == rc.1.cid() && m[size].capacity() == cap && m[size].sent().len() == 0
+}
+
+// Carve-out: from `let mut zoom_receivers = ..` to the closing brace of the construction loop.
+#[verifier::loop_isolation(false)]
+fn build_levels(zooms: &Vec<u32>, options: &BBIWriteOptions, chrom_ids: &StrMap) -> (r: (Vec<(u32, Mailbox<ZMsg>, LevelFile)>, Vec<(u32, StageBuf<OutFile>)>, SMap))
+    requires
+        
+        strictly_increasing(zooms@),
+    ensures
+        
+        r.0@.len() == zooms@.len() && r.1@.len() == zooms@.len(),
+        forall|k: int| 0 <= k < zooms@.len() ==> level_built(#[trigger] r.0@[k], r.1@[k], r.2@, zooms@[k], chrom_ids.count() as int),
+        
+        forall|x: u32| r.2@.dom().contains(x) <==> zooms@.contains(x),
+        
+        forall|x: u32| r.2@.dom().contains(x) ==> (#[trigger] r.2@[x]).capacity() == chrom_ids.count() as int && r.2@[x].sent().len() == 0,
+{
+    let mut zoom_receivers = Vec::with_capacity(zooms.len());
+    let mut zoom_files = Vec::with_capacity(zooms.len());
+    let mut zooms_map: SMap = SMap::new();
+    for j__ in 0..zooms.len() 
+        invariant
+            
+            zoom_receivers@.len() == j__, zoom_files@.len() == j__,
+            forall|k: int| 0 <= k < j__ ==> level_built(#[trigger] zoom_receivers@[k], zoom_files@[k], zooms_map@, zooms@[k], chrom_ids.count() as int),
+            
+            forall|x: u32| zooms_map@.dom().contains(x) <==> (exists|k: int| 0 <= k < j__ && zooms@[k] == x),
+{ let size = zooms[j__];
+        let (buf, write) = level_staging_new(options.inmemory);
+        let (sender, receiver) = channel(chrom_ids.len());
+        zoom_receivers.push((size, receiver, write));
+        zoom_files.push((size, buf));
+        zooms_map.insert(size, sender);
+    }
+
+    proof {
+        
+        assert forall|x: u32| zooms_map@.dom().contains(x) <==> zooms@.contains(x) by {
+            if zooms@.contains(x) { let k = choose|k: int| 0 <= k < zooms@.len() && zooms@[k] == x; }
+        }
+        
+        assert forall|x: u32| zooms_map@.dom().contains(x) implies (#[trigger] zooms_map@[x]).capacity() == chrom_ids.count() as int && zooms_map@[x].sent().len() == 0 by {
+            let k = choose|k: int| 0 <= k < zooms@.len() && zooms@[k] == x;
+            assert(level_built(zoom_receivers@[k], zoom_files@[k], zooms_map@, zooms@[k], chrom_ids.count() as int));
+        }
+    }
+    (zoom_receivers, zoom_files, zooms_map)
+}
+
+/// `runtime.spawn(async move { .. })` of the level task (a) with the captured triple: the handle's `cid()` is the
+/// staging file of the triple's writer, `task_input()` the triple (what (a) is a function of)
+pub uninterp spec fn task_input(h: LevelHandle) -> (u32, Mailbox<ZMsg>, LevelFile);
+impl Runtime {
+    #[verifier::external_body]
+    pub fn spawn_level(&self, rcv: (u32, Mailbox<ZMsg>, LevelFile)) -> (h: LevelHandle)
+        ensures h.cid() == rcv.2.cid(), task_input(h) == rcv,
+    { unimplemented!() }
+}
+// Carve-out: `let mut zooms = Vec::with_capacity(..); for rcv in zoom_receivers { .. zooms.push(handle); }`; the task
+// body (under contract as `level_task`) is replaced by the logged `spawn_level(rcv)`.
+#[verifier::loop_isolation(false)]
+fn spawn_levels(zoom_receivers: Vec<(u32, Mailbox<ZMsg>, LevelFile)>, runtime: &Runtime) -> (r: Vec<LevelHandle>)
+    ensures
+        
+        r@.len() == zoom_receivers@.len(),
+        forall|k: int| 0 <= k < r@.len() ==> task_input(#[trigger] r@[k]) == zoom_receivers@[k] && r@[k].cid() == zoom_receivers@[k].2.cid(),
+{
+    let ghost all = zoom_receivers@;
+
+    let mut zooms = Vec::with_capacity(zoom_receivers.len());
+    let mut src__ = zoom_receivers;
+    while src__.len() > 0 
+        invariant
+            
+            zooms@.len() + src__@.len() == all.len(), src__@ == all.subrange(zooms@.len() as int, all.len() as int),
+            forall|k: int| 0 <= k < zooms@.len() ==> task_input(#[trigger] zooms@[k]) == all[k] && zooms@[k].cid() == all[k].2.cid(),
+        decreases
+            
+            src__@.len(),
+{
+
+        proof {
+            let a = zooms@.len() as int;
+            assert(all.subrange(a, all.len() as int)[0] == all[a]);
+            assert(all.subrange(a, all.len() as int).remove(0) =~= all.subrange(a + 1, all.len() as int));
+        }
+        let rcv = src__.remove(0);
+        let handle = runtime.spawn_level(rcv);
+        zooms.push(handle);
+    }
+    zooms
+}
+
+/// (a)-(d) fit together: what `build_levels` + `spawn_levels` hand to the tail is what the tail requires
+fn driver_pairing(zooms: &Vec<u32>, options: &BBIWriteOptions, chrom_ids: &StrMap, runtime: &Runtime) -> (r: (Vec<LevelHandle>, Vec<(u32, StageBuf<OutFile>)>))
+    requires strictly_increasing(zooms@),
+    ensures
+        
+        r.0@.len() == r.1@.len() && r.0@.len() == zooms@.len(),
+        forall|k: int| 0 <= k < r.0@.len() ==> (#[trigger] r.1@[k]).1.cid() == r.0@[k].cid() && r.1@[k].0 == zooms@[k] && r.1@[k].1.dest() is None,
+{
+    let (zoom_receivers, zoom_files, zooms_map) = build_levels(zooms, options, chrom_ids);
+    let handles = spawn_levels(zoom_receivers, runtime);
+    (handles, zoom_files)
+}
+
+/// C13 hand-off: the levels are built, then `advance` runs once per chromosome run -- at most `chrom_ids.len()` runs
+/// (see NOTES.md for what ties the number of runs to the number of ids) -- and NOTHING is ever drained: no
+/// `try_send(..).unwrap()` can fail.  Nothing is re-implemented: the driver calls the extracted `build_levels` and
+/// `advance_zoom_vals`.
+fn driver_handoff(zooms: &Vec<u32>, options: &BBIWriteOptions, chrom_ids: &StrMap, procs: Vec<ProcZ>) -> (r: SMap)
+    requires
+        strictly_increasing(zooms@),
+        procs@.len() <= chrom_ids.count(),
+        // every finished chromosome hands back zoom infos that carry exactly the levels (chrom_ids zoom_pass/…)
+        forall|k: int| 0 <= k < procs@.len() ==> infos_pre((#[trigger] procs@[k]).out().0@, zooms@.to_set()),
+    ensures
+        
+        forall|x: u32| zooms@.contains(x) ==> r@.dom().contains(x) && (#[trigger] r@[x]).sent().len() == procs@.len(),
+{
+    let (zoom_receivers, zoom_files, zooms_map) = build_levels(zooms, options, chrom_ids);
+    let mut zooms_map = zooms_map;
+    let mut procs = procs;
+    let ghost all = procs@;
+    let ghost dom = zooms_map@.dom();
+    let ghost cap = chrom_ids.count() as int;
+    proof { assert(dom =~= zooms@.to_set()); }
+    while procs.len() > 0
+        invariant
+            procs@.len() <= all.len(), all.len() <= cap,
+            procs@ == all.subrange(all.len() - procs@.len(), all.len() as int),
+            zooms_map@.dom() == dom, dom == zooms@.to_set(),
+            forall|k: int| 0 <= k < all.len() ==> infos_pre((#[trigger] all[k]).out().0@, dom),
+            forall|x: u32| dom.contains(x) ==> (#[trigger] zooms_map@[x]).capacity() == cap && zooms_map@[x].sent().len() == all.len() - procs@.len(),
+        decreases
+            
+            procs@.len(),
+    {
+        let ghost done = all.len() - procs@.len();
+        proof {
+            assert(all.subrange(done, all.len() as int)[0] == all[done]);
+            assert(all.subrange(done, all.len() as int).remove(0) =~= all.subrange(done + 1, all.len() as int));
+        }
+        let p = procs.remove(0);
+        
+        assert(forall|x: u32| dom.contains(x) ==> (#[trigger] zooms_map@[x]).sent().len() < zooms_map@[x].capacity());
+        advance_zoom_vals(p, &mut zooms_map);
+    }
+    zooms_map
 }
 
 } // verus!
